@@ -38,11 +38,11 @@ theorem StoreWT.write {Γ : Ctx} {σ : Store} (hσ : StoreWT Γ σ) {x : String}
     (hx : Γ.lookup x = some t) (hv : v.hasTy t = true) :
     StoreWT Γ (writeName σ x v) ∧ (writeName σ x v).vars = insert x v σ.vars ∧
       (writeName σ x v).frames = σ.frames := by
-  obtain ⟨v0, hv0, _⟩ := hσ x t hx
+  obtain ⟨v0, hv0, _⟩ := hσ.vars x t hx
   have hw : writeName σ x v = { σ with vars := insert x v σ.vars } := by
     simp [writeName, hv0]
   rw [hw]
-  refine ⟨?_, rfl, rfl⟩
+  refine ⟨⟨?_, hσ.aggs, hσ.ctx⟩, rfl, rfl⟩
   intro y ty hy
   by_cases hyx : y = x
   · subst hyx
@@ -50,7 +50,7 @@ theorem StoreWT.write {Γ : Ctx} {σ : Store} (hσ : StoreWT Γ σ) {x : String}
     injection hy with hy
     subst hy
     exact ⟨v, lookup_insert_same y v σ.vars (by simp [hv0]), hv⟩
-  · obtain ⟨w, hw1, hw2⟩ := hσ y ty hy
+  · obtain ⟨w, hw1, hw2⟩ := hσ.vars y ty hy
     exact ⟨w, by simp [lookup_insert_other x y v σ.vars hyx, hw1], hw2⟩
 
 @[simp] theorem writeVal_real (σ : Store) (x : String) (v : Val) : writeVal .real σ x v = (writeName σ x v, none) := rfl
@@ -445,7 +445,7 @@ theorem for_stmt_rel {fuel : Nat} (hF : PFor Γ fuel) {ld : Nat} {σ : Store} {x
       simp only [strictStmt, hx, Bool.and_eq_true, bne_iff_ne, ne_eq] at hs
       obtain ⟨⟨⟨⟨hk0, hss⟩, hse⟩, hsst⟩, hsb⟩ := hs
       have hk : k ≠ .ulint := by intro h; subst h; exact hk0 rfl
-      obtain ⟨c0, hc0, hc0t⟩ := hσ x _ hx
+      obtain ⟨c0, hc0, hc0t⟩ := hσ.vars x _ hx
       obtain ⟨c, rfl, _⟩ := hasTy_int hc0t
       simp only [execStmt, Spec.execStmt, hx]
       have htst' : ∀ st, step = some st → Spec.boundTyped Γ k st = true := by
@@ -541,6 +541,29 @@ theorem select_big {n : Int} (hn : 9223372036854775807 < n) :
     simp [hm, select_big hn rest hs.2]
 
 
+/-- The right-hand side of a strict assignment to a target of type `t`. -/
+theorem value_rel {σ : Store} (hσ : StoreWT Γ σ) {t : Ty} {e : Expr} (hs : strictAssign Γ t e = true) :
+    (∃ v, evalExpr .real σ e = .ok v ∧ Spec.valueOf Γ (eraseEnv σ.vars) e = .ok (erase v) ∧
+        v.hasTy t = true) ∨
+    (∃ s f, evalExpr .real σ e = .error s ∧ Spec.valueOf Γ (eraseEnv σ.vars) e = .error f ∧
+        s.toS = some f) := by
+  simp only [strictAssign, Bool.and_eq_true] at hs
+  obtain ⟨hnd, hty⟩ := hs
+  cases ha : Spec.atomVal e with
+  | some m =>
+    simp only [ha] at hty
+    simp at hty
+    subst hty
+    obtain ⟨h1, h2, h3⟩ := atom_eval (σ := σ) ha hnd
+    refine .inl ⟨.i .dint m, h1, by simp [Spec.valueOf, ha, erase, pure, Except.pure], ?_⟩
+    simp [Val.hasTy]; rw [IKind.inRange_iff]; simp [IKind.lo, IKind.hi]; omega
+  | none =>
+    simp only [ha] at hty
+    simp at hty
+    rcases (eval_rel Γ σ hσ e t hty hnd).elim with ⟨v, e1, e2, e3⟩ | ⟨s, f, e1, e2, e3⟩
+    · exact .inl ⟨v, e1, by simp [Spec.valueOf, ha, e2], e3⟩
+    · exact .inr ⟨s, f, e1, by simp [Spec.valueOf, ha, e2], e3⟩
+
 theorem assign_rel {fuel ld : Nat} {σ : Store} {x : String} {e : Expr} {inLoop : Bool}
     (hσ : StoreWT Γ σ) (hs : strictStmt Γ (.assign x e) = true) :
     RelR Γ σ inLoop (execStmt .real (fuel + 1) ld σ (.assign x e))
@@ -550,32 +573,82 @@ theorem assign_rel {fuel ld : Nat} {σ : Store} {x : String} {e : Expr} {inLoop 
   cases hx : Γ.lookup x with
   | none => simp [hx] at hs
   | some t =>
-    simp only [hx, strictAssign, Bool.and_eq_true] at hs
-    obtain ⟨hnd, hty⟩ := hs
-    cases ha : Spec.atomVal e with
-    | some m =>
-      simp only [ha] at hty
-      simp at hty
-      subst hty
-      obtain ⟨h1, h2, h3⟩ := atom_eval (σ := σ) ha hnd
-      have hv : (Val.i .dint m).hasTy (.int .dint) = true := by
-        simp [Val.hasTy]; rw [IKind.inRange_iff]; simp [IKind.lo, IKind.hi]; omega
-      obtain ⟨w1, w2, w3⟩ := hσ.write hx hv
-      simp only [h1, writeVal_real, pure, Except.pure]
+    simp only [hx] at hs
+    rcases value_rel Γ hσ hs with ⟨v, e1, e2, e3⟩ | ⟨s, f, e1, e2, e3⟩
+    · obtain ⟨w1, w2, w3⟩ := hσ.write hx e3
+      simp only [e1, e2, writeVal_real]
       refine ⟨w1, ?_, w3, ?_⟩
-      · simp [w2, ← sinsert_erase, erase]
+      · simp [w2, ← sinsert_erase]
       · simp [FlowOK]
-    | none =>
-      simp only [ha] at hty
-      simp at hty
-      rcases (eval_rel Γ σ hσ e t hty hnd).elim with ⟨v, e1, e2, e3⟩ | ⟨s, f, e1, e2, e3⟩
-      · obtain ⟨w1, w2, w3⟩ := hσ.write hx e3
-        simp only [e1, e2, writeVal_real]
+    · simp only [e1, e2]
+      exact ⟨hσ, rfl, rfl, e3⟩
+
+theorem assignFld_rel {fuel ld : Nat} {σ : Store} {s f : String} {e : Expr} {inLoop : Bool}
+    (hσ : StoreWT Γ σ) (hs : strictStmt Γ (.assignFld s f e) = true) :
+    RelR Γ σ inLoop (execStmt .real (fuel + 1) ld σ (.assignFld s f e))
+      (Spec.execStmt Γ (fuel + 1) (eraseEnv σ.vars) (.assignFld s f e)) := by
+  simp only [execStmt, Spec.execStmt]
+  simp only [strictStmt] at hs
+  cases hT : Spec.infer Γ (.fld s f) with
+  | none => simp [hT] at hs
+  | some t =>
+    simp only [hT] at hs
+    simp only [Spec.infer] at hT
+    split at hT
+    · rename_i tn fields hag
+      have hσa : σ.aggs.lookup s = some (.str tn fields) := by rw [hσ.aggs]; exact hag
+      have hslot := aggOK_fld hσ.ctx hag hT
+      obtain ⟨v0, hv0, _⟩ := hσ.vars _ _ hslot
+      rcases value_rel Γ hσ hs with ⟨v, e1, e2, e3⟩ | ⟨st, g, e1, e2, e3⟩
+      · obtain ⟨w1, w2, w3⟩ := hσ.write hslot e3
+        simp only [e1, e2, hσa, hT, writeSlot, hv0, writeVal_real]
         refine ⟨w1, ?_, w3, ?_⟩
         · simp [w2, ← sinsert_erase]
         · simp [FlowOK]
       · simp only [e1, e2]
         exact ⟨hσ, rfl, rfl, e3⟩
+    · simp at hT
+
+theorem assignIdx_rel {fuel ld : Nat} {σ : Store} {a : String} {i e : Expr} {inLoop : Bool}
+    (hσ : StoreWT Γ σ) (hs : strictStmt Γ (.assignIdx a i e) = true) :
+    RelR Γ σ inLoop (execStmt .real (fuel + 1) ld σ (.assignIdx a i e))
+      (Spec.execStmt Γ (fuel + 1) (eraseEnv σ.vars) (.assignIdx a i e)) := by
+  simp only [execStmt, Spec.execStmt]
+  simp only [strictStmt, Bool.and_eq_true] at hs
+  obtain ⟨hndI, hs⟩ := hs
+  cases hT : Spec.infer Γ (.idx a i) with
+  | none => simp [hT] at hs
+  | some t =>
+    simp only [hT] at hs
+    obtain ⟨lo, hi, hag, hi'⟩ := Spec.infer_idx hT
+    have hσa : σ.aggs.lookup a = some (.arr lo hi t) := by rw [hσ.aggs]; exact hag
+    have ndi : noDriftE Γ i = true ∧ Spec.infer Γ i ≠ some (.int .ulint) := by
+      simpa [noDriftE] using hndI
+    have hty : (∃ m, Spec.atomVal i = some m) ∨ (∃ k, Spec.infer Γ i = some (.int k)) := by
+      rcases hi' with ⟨m, hm, _⟩ | ⟨_, k, hk⟩
+      · exact .inl ⟨m, hm⟩
+      · exact .inr ⟨k, hk⟩
+    simp only [hag]
+    rcases value_rel Γ hσ hs with ⟨v, e1, e2, e3⟩ | ⟨st, g, e1, e2, e3⟩
+    · simp only [e1, e2, hσa]
+      rcases index_rel Γ σ (eval_rel Γ σ hσ i) lo hi hty ndi.1 ndi.2 with
+        ⟨n, h1, h2, h3, h4⟩ | ⟨n, s, h1, h2, h3, h4⟩ | ⟨s, f, h1, h2, h3⟩
+      · have hslot := aggOK_arr hσ.ctx hag h3 h4
+        obtain ⟨v0, hv0, _⟩ := hσ.vars _ _ hslot
+        obtain ⟨w1, w2, w3⟩ := hσ.write hslot e3
+        have hb : ¬ (n < lo ∨ n > hi) := by omega
+        rw [h1, h2]
+        simp only [hb, if_false, writeSlot, hv0, writeVal_real]
+        refine ⟨w1, ?_, w3, ?_⟩
+        · simp [w2, ← sinsert_erase]
+        · simp [FlowOK]
+      · rw [h1, h2]
+        simp only [h3, if_true]
+        exact RelR.mk_err hσ rfl h4
+      · rw [h1, h2]
+        exact RelR.mk_err hσ rfl h3
+    · simp only [e1, e2]
+      exact ⟨hσ, rfl, rfl, e3⟩
 
 theorem selectorInt_int (k : IKind) (x : Int) :
     selectorInt (.i k x) = .ok (if k = .ulint ∧ ¬ x ≤ i64Max then none else some x) := by
@@ -587,6 +660,8 @@ theorem stmt_step {fuel : Nat} (hB : PBlock Γ fuel) (hE : PElifs Γ fuel) (hF :
   intro ld σ s R inLoop hσ ht hs hld
   cases s with
   | assign x e => exact assign_rel Γ hσ hs
+  | assignIdx a i e => exact assignIdx_rel Γ hσ hs
+  | assignFld s f e => exact assignFld_rel Γ hσ hs
   | ite c t elifs el =>
     simp only [Spec.typedStmt, strictStmt, Bool.and_eq_true, decide_eq_true_eq] at ht hs
     obtain ⟨⟨⟨hc, htt⟩, hte⟩, htl⟩ := ht
@@ -679,7 +754,7 @@ theorem exec_rel : ∀ fuel, PStmt Γ fuel ∧ PBlock Γ fuel ∧ PElifs Γ fuel
 
 end
 theorem StoreWT.frames_irrel {Γ : Ctx} {σ : Store} (h : StoreWT Γ σ) (fr : List String) :
-    StoreWT Γ { σ with frames := fr } := h
+    StoreWT Γ { σ with frames := fr } := ⟨h.vars, h.aggs, h.ctx⟩
 
 /-- One scan cycle inside the guard, from any well-typed store. -/
 theorem cycle_rel (p : Program) (hS : Strict p = true) (σ : Store) (hσ : StoreWT p.ctx σ) (fuel : Nat) :
@@ -716,7 +791,8 @@ def InputsWT (Γ : Ctx) (ins : Inputs) : Prop :=
 theorem StoreWT.insert {Γ : Ctx} {σ : Store} (hσ : StoreWT Γ σ) {x : String} {t : Ty} {v : Val}
     (hx : Γ.lookup x = some t) (hv : v.hasTy t = true) :
     StoreWT Γ { σ with vars := insert x v σ.vars } := by
-  obtain ⟨v0, hv0, _⟩ := hσ x t hx
+  obtain ⟨v0, hv0, _⟩ := hσ.vars x t hx
+  refine ⟨?_, hσ.aggs, hσ.ctx⟩
   intro y ty hy
   by_cases hyx : y = x
   · subst hyx
@@ -724,7 +800,7 @@ theorem StoreWT.insert {Γ : Ctx} {σ : Store} (hσ : StoreWT Γ σ) {x : String
     injection hy with hy
     subst hy
     exact ⟨v, lookup_insert_same y v σ.vars (by simp [hv0]), hv⟩
-  · obtain ⟨w, hw1, hw2⟩ := hσ y ty hy
+  · obtain ⟨w, hw1, hw2⟩ := hσ.vars y ty hy
     exact ⟨w, by simp [lookup_insert_other x y v σ.vars hyx, hw1], hw2⟩
 
 theorem withInputs_WT {Γ : Ctx} (ws : List (String × Val))
@@ -854,31 +930,45 @@ theorem initVal_hasTy (d : VarDecl) (h : Spec.declTyped d = true) : d.initVal.ha
   | bool => simp [Val.hasTy]
   | int k => simp [hty] at h; simp [Val.hasTy, h]
 
-theorem init_WT_aux : ∀ (ds : List VarDecl), ds.all Spec.declTyped = true → ∀ x t,
-    (ds.map fun d => (d.name, d.ty)).lookup x = some t →
-    ∃ v, lookup x (ds.map fun d => (d.name, d.initVal)) = some v ∧ v.hasTy t = true := by
-  intro ds
-  induction ds with
+theorem init_WT_aux : ∀ (sl : List (String × Ty × Val)), (∀ q ∈ sl, q.2.2.hasTy q.2.1 = true) → ∀ x t,
+    (sl.map fun (k, t, _) => (k, t)).lookup x = some t →
+    ∃ v, lookup x (sl.map fun (k, _, v) => (k, v)) = some v ∧ v.hasTy t = true := by
+  intro sl
+  induction sl with
   | nil => intro _ x t h; simp [List.lookup] at h
   | cons d rest ih =>
+    obtain ⟨k, t0, v0⟩ := d
     intro hall x t h
-    simp only [List.all_cons, Bool.and_eq_true] at hall
     simp only [List.map_cons, List.lookup] at h
     simp only [List.map_cons, lookup]
-    by_cases hx : x = d.name
+    by_cases hx : x = k
     · subst hx
       simp at h
       subst h
-      exact ⟨d.initVal, by simp, initVal_hasTy d hall.1⟩
-    · have : (x == d.name) = false := by simp [hx]
+      exact ⟨v0, by simp, hall _ List.mem_cons_self⟩
+    · have : (x == k) = false := by simp [hx]
       simp only [this] at h
       simp only [hx, if_false]
-      exact ih hall.2 x t h
+      exact ih (fun q hq => hall q (List.mem_cons_of_mem _ hq)) x t h
+
+theorem default_hasTy (t : Ty) : t.default.hasTy t = true := by
+  cases t with
+  | bool => rfl
+  | int k => cases k <;> decide
+
+theorem slots_hasTy (p : Program) (h : p.decls.all Spec.declTyped = true) :
+    ∀ q ∈ p.slots, q.2.2.hasTy q.2.1 = true := by
+  intro q hq
+  simp only [Program.slots, List.mem_append, List.mem_map] at hq
+  rcases hq with ⟨d, hd, rfl⟩ | ⟨⟨k, t⟩, _, rfl⟩
+  · rw [List.all_eq_true] at h
+    exact initVal_hasTy d (h d hd)
+  · exact default_hasTy t
 
 /-- The initial store of a program of the typed core is well typed
-(`coerce_value_to_type` on the initialisers). -/
+(`coerce_value_to_type` on the initialisers, type defaults in the aggregates). -/
 theorem init_WT (p : Program) (h : Spec.typed p = true) : StoreWT p.ctx p.initStore := by
   simp only [Spec.typed, Bool.and_eq_true] at h
-  exact init_WT_aux p.decls h.1.2
+  exact ⟨init_WT_aux p.slots (slots_hasTy p h.1.1.2), rfl, h.1.2⟩
 
 end TrustVerif.StCore
